@@ -16,7 +16,7 @@ BOUNDS = {
     "quick": "N=3, d=2; g(r): symbolic orthogonal box, bin width with B in {1,2}, condition kinds bool (all non-empty selections), "
              "float, complex, vector, tensor with all values symbolic; S(q): concrete boxes, Q<=3 wave vectors, kinds bool, float, "
              "vector; reductions to g_aa / S_aa, totals for A=1, vector = sum of components, gA_norm",
-    "thorough": "as quick plus d=3, triclinic concrete cells for g(r), N=4 (one particle concrete)",
+    "thorough": "as quick plus d=3, triclinic concrete cells (both tilt signs, mixed mask) for g(r), N=4 (two particles concrete) for every field kind, B<=3, N<=5 for S(q)",
 }
 STUBS = ["np.histogram -> documented semantics", "cos/sin -> structural cache", "DataFrame.round(8) -> identity"]
 ASSUMPTIONS = ["floats modelled as reals", "non-empty selections", "non-constant A for gA_norm (denominator non-zero)"]
@@ -246,6 +246,11 @@ def cfg_gr(tier, seed):
             out.append(dict(d=3, N=3, kind=kind, cell="sym-o", ppp=[1, 1, 1], Bmax=1, sel=[True, False, True], types=[1, 2, 1]))
             out.append(dict(d=2, N=3, kind=kind, cell="t-", ppp=per, Bmax=2, sel=[True, True, False], types=[1, 1, 2]))
         out.append(dict(d=2, N=4, kind="float", cell="sym-o", ppp=per, Bmax=1, fixed=1))
+        for kind in ("complex", "vector", "tensor"):
+            out.append(dict(d=2, N=4, kind=kind, cell="sym-o", ppp=per, Bmax=1, fixed=2))
+            out.append(dict(d=3, N=3, kind=kind, cell="t+", ppp=[1, 1, 1], Bmax=1))
+        out.append(dict(d=2, N=3, kind="float", cell="sym-o", ppp=per, Bmax=3))
+        out.append(dict(d=3, N=3, kind="float", cell="t-", ppp=[1, 0, 1], Bmax=2))
     return out
 
 
@@ -262,6 +267,9 @@ def cfg_sq(tier, seed):
     if tier == "thorough":
         out.append(dict(d=3, N=3, kind="vector", box=1, qvec=[[1, 0, 0], [0, 1, 0], [1, 1, 0]]))
         out.append(dict(d=3, N=3, kind="bool", box=0, qvec=[[1, 0, 0], [0, 0, 1]], sel=[False, True, True], types=[1, 2, 2]))
+        out.append(dict(d=2, N=4, kind="complex", box=2, qvec=[[1, 0], [0, 1], [1, -1], [2, 1]]))
+        out.append(dict(d=3, N=4, kind="vector", box=0, qvec=[[1, 0, 0], [1, 1, 1]]))
+        out.append(dict(d=2, N=5, kind="float", box=0, qvec=[[1, 0], [0, -1], [2, 2]]))
     return out
 
 
